@@ -1,6 +1,11 @@
+mod capi;
+mod child;
 mod common;
+mod comp;
 mod crash;
 mod rt;
+mod sched;
+mod schk;
 mod seq;
 mod sut;
 
@@ -23,6 +28,17 @@ fn main() {
     };
     let mut replay: Option<String> = None;
     let mut i = 2;
+    if args.get(2).map(|s| s.as_str()) == Some("--child") {
+        install_panic_hook();
+        let fam = args.get(3).cloned().unwrap_or_default();
+        let start: u64 = args.get(4).and_then(|s| s.parse().ok()).unwrap_or(0);
+        let end: u64 = args.get(5).and_then(|s| s.parse().ok()).unwrap_or(0);
+        let code = match id.as_str() {
+            "C25" => comp::c25_child(&fam, start, end),
+            _ => 2,
+        };
+        std::process::exit(code);
+    }
     while i < args.len() {
         match args[i].as_str() {
             "--tier" => {
@@ -48,10 +64,19 @@ fn main() {
         "C02" => crash::c02(tier),
         "C08" => crash::c08(tier),
         "C17" => crash::c17(tier),
+        "C03" => schk::c03(tier),
+        "C09" => schk::c09(tier),
+        "C29" => schk::c29(tier),
+        "C35" => schk::c35(tier),
         "C04" => seq::c04(tier),
         "C05" => seq::c05(tier),
         "C06" => seq::c06(tier),
         "C07" => seq::c07(tier),
+        "C18" => seq::c18(tier),
+        "C25" => comp::c25(tier),
+        "C26" => comp::c26(tier),
+        "C27" => comp::c27(tier),
+        "C31" => comp::c31(tier),
         "C28" => seq::c28(tier),
         _ => {
             eprintln!("unknown property {id}");
